@@ -245,6 +245,69 @@ func runC06(c *Ctx, idx int, o *Obs) {
 			o.Check(d == "", "cli_prune_not_induced", what+" (gotree prune): "+d, inp+" => "+Trunc(res.Stdout, 1500))
 		}
 	}
+	// several trees with different tip sets in one file: every tree is pruned against ITS OWN tips
+	if useCLI && len(all) >= 7 {
+		core := randSubset(r, all, max(4, len(all)/2))
+		coreSet := setOf(core)
+		var rest []string
+		for _, nm := range all {
+			if !coreSet[nm] {
+				rest = append(rest, nm)
+			}
+		}
+		var lines []string
+		var models []*ref.Tree
+		for i := 0; i < 3+r.Intn(3); i++ {
+			keep := setOf(core)
+			for _, nm := range rest {
+				if r.Intn(2) == 0 {
+					keep[nm] = true
+				}
+			}
+			m := bm.Restrict(keep)
+			models = append(models, m)
+			lines = append(lines, m.Newick())
+		}
+		multi := tmpFile(c, "multi.nw", strings.Join(lines, "\n")+"\n")
+		comp := tmpFile(c, "comp.nw", "("+strings.Join(append(append([]string{}, core...), "only_in_comp"), ",")+");\n")
+		tf := tmpFile(c, "tips.txt", strings.Join(rest, "\n")+"\n")
+		for _, mode := range []string{"comp", "tipfile", "args"} {
+			var cl []string
+			switch mode {
+			case "comp":
+				cl = []string{"prune", "-i", multi, "-c", comp}
+			case "tipfile":
+				cl = []string{"prune", "-i", multi, "-f", tf}
+			default:
+				cl = append([]string{"prune", "-i", multi}, rest...)
+			}
+			if len(rest) == 0 && mode != "comp" {
+				continue
+			}
+			res := runCLI(c, "", cl...)
+			o.Ev("cli_prune_multi", 1)
+			what := "gotree prune on a file of " + fmt.Sprint(len(lines)) + " trees with different tip sets (" + mode + ")"
+			inp2 := strings.Join(lines, "\n") + "\nkeep: " + strings.Join(core, ",")
+			if !o.Check(res.Exit == 0 && !res.Panic, "cli_prune_failed", what+": "+res.brief(), inp2) {
+				continue
+			}
+			outl := strings.Split(strings.TrimSpace(res.Stdout), "\n")
+			if !o.Check(len(outl) == len(lines), "cli_prune_multi_count", fmt.Sprintf("%s: %d output trees for %d input trees", what, len(outl), len(lines)), inp2) {
+				continue
+			}
+			for i, ln := range outl {
+				ct, err := parseNewick(ln)
+				if !o.Check(err == nil, "cli_prune_output", fmt.Sprintf("%s: tree %d unreadable: %v", what, i, err), inp2) {
+					break
+				}
+				want := reduce(models[i].Restrict(coreSet), true)
+				d := sameTree(want, reduce(modelOf(ct), true), false)
+				if !o.Check(d == "", "cli_prune_not_induced", fmt.Sprintf("%s: tree %d: %s", what, i, d), inp2+" => "+Trunc(ln, 800), "mode", "multi-"+mode) {
+					break
+				}
+			}
+		}
+	}
 	inner := false
 	for _, ch := range bm.Root.Children {
 		if !ch.IsTip() {
